@@ -756,7 +756,52 @@ def pipeline(ctx, vh, rng, n):
             ctx.violation("double constant 2.5e2 + 0.5 embedded as %r" % d.text, {"case": doc})
         checked += 1
     ctx.coverage["pipeline_documents_checked"] = checked
+    enum_places(ctx, vh, rng)
     menu_actions(ctx, vh, rng, max(12, n // 4))
+
+
+ENUM_PLACES = [  # (class, binding name, qualifier, variants, how the value is found in the .ui)
+    ("QLabel", "alignment", "Qt", ["AlignLeft", "AlignTop", "AlignRight", "AlignBottom", "AlignHCenter"], r"<set>(.*?)</set>"),
+    ("QLabel", "textFormat", "Qt", ["RichText", "PlainText", "AutoText"], r"<enum>(.*?)</enum>"),
+    ("QLabel", "font.styleStrategy", "QFont", ["PreferAntialias", "NoSubpixelAntialias", "PreferQuality", "ForceOutline", "NoAntialias"], r"<stylestrategy>(.*?)</stylestrategy>"),
+    ("QLabel", "cursor", "Qt", ["WaitCursor", "BusyCursor", "ArrowCursor", "IBeamCursor"], r"<cursorShape>(.*?)</cursorShape>"),
+    ("QLabel", "sizePolicy.horizontalPolicy", "QSizePolicy", ["Expanding", "Fixed", "Minimum", "Preferred"], r'hsizetype="(.*?)"'),
+    ("QLabel", "sizePolicy.verticalPolicy", "QSizePolicy", ["Expanding", "Fixed", "Minimum"], r'vsizetype="(.*?)"'),
+    ("QLabel", "palette.window.style", "Qt", ["SolidPattern", "Dense4Pattern", "NoBrush", "CrossPattern"], r'brushstyle="(.*?)"'),
+    ("QGraphicsView", "backgroundBrush.style", "Qt", ["SolidPattern", "Dense4Pattern", "HorPattern"], r'brushstyle="(.*?)"'),
+    ("QToolButton", "toolButtonStyle", "Qt", ["ToolButtonIconOnly", "ToolButtonTextOnly"], r"<enum>(.*?)</enum>"),
+]
+
+
+def enum_places(ctx, vh, rng):
+    """enumerators and OR-ed enumerators in every place of the .ui that takes one (set, enum, members of font / size policy / brush, cursor shape): the embedded text
+    names exactly the enumerators of the source, in order, whatever qualifier each of them carries"""
+    docs, metas = [], []
+    for cls, name, q, vs, rx in ENUM_PLACES:
+        for k in (1, 1, 2, 2, 3):
+            sel = rng.sample(vs, min(k, len(vs)))
+            docs.append("import qmluic.QtWidgets\nQWidget {\n  %s {\n    id: w\n    %s: %s\n  }\n}\n" % (cls, name, " | ".join("%s.%s" % (q, v) for v in sel)))
+            metas.append((name, sel, rx))
+    res = qml.run_docs(vh, docs, mode="generate")
+    emb = 0
+    for doc, (name, sel, rx), r in zip(docs, metas, res):
+        ctx.count(("enum-place", doc), True)
+        ctx.dist("enum-place-%d-enumerators" % len(sel))
+        if not isinstance(r, dict) or "diags" not in r:
+            ctx.violation("pipeline crashes on an enumerator constant", {"case": doc, "impl_output": str(r)[:300]})
+            continue
+        if r.get("ui") is None or any(d["kind"] == "error" for d in r["diags"]):
+            continue                 # refused: safe
+        m = re.search(rx, r["ui"], re.S)
+        if m is None:
+            ctx.violation("%s: the constant %s is accepted without diagnostic and appears nowhere in the .ui" % (name, " | ".join(sel)), {"case": doc, "impl_output": r["ui"]})
+            continue
+        emb += 1
+        got = [x.strip().split("::")[-1] for x in m.group(1).split("|")]
+        if got != sel:
+            ctx.violation("%s: the enumerators %s are embedded as %r, which names %s" % (name, " | ".join(sel), m.group(1), got),
+                          {"case": doc, "impl_output": m.group(1), "oracle_output": "|".join(sel), "theorem_or_correspondence": "S: enumerator constants in every value place"})
+    ctx.coverage["enum_places_embedded"] = emb
 
 
 MENU_ELEMS = [("m1.menuAction()", "m1"), ("m2.menuAction()", "m2"), ("m3.menuAction()", "m3"), ("act", "act"),
